@@ -14,6 +14,7 @@ class Body:
         self.d = d
         self.unit = unit
         self.id = d["id"]
+        self.cache_id = d["id"]      # analyses cache by this; the inlined view of a body has its own
         self.defpath = d["def"]
         self.kind = d["kind"]
         self.root = d.get("root")
